@@ -66,3 +66,11 @@ claim("C03",
       "measurement conventions) at several lengths and validates every row (count, real dtype, finite, unit / proper rotation / "
       "finite angles); observed runs are validated by TraceLifecycle.",
       "TLA+ FilterLifecycle catalogue + TLC + replay over enumerated configurations, trace validation", "DESIGN.md section 5, C03")
+claim("C07",
+      "Vectorised.tla fixes the catalogue of 47 twin pairs (QuaternionArray vs Quaternion conversions, 9 matrix->quaternion "
+      "variants, N-by-3-by-3 vs 3-by-3 functions, batch vs single metrics, N-sample constructors vs estimate() of every single-frame "
+      "estimator and option) and the arrangements of six row classes (generic, half-turn, near-half-turn, near-identity, identity) "
+      "over N in {1,2,5}, with the invariant RowLocal; TLC enumerates all 18k (pair, arrangement) cases; the harness concretises "
+      "them with exact rows and requires row i of the array path to equal the scalar path within 1e-12 (NaN pattern included, "
+      "sign-free for eigen-solvers), plus one-sample constructors vs one-row batches with options honoured.",
+      "TLA+ Vectorised catalogue + TLC enumeration + abstract-state determinism replay", "DESIGN.md section 5, C07")
